@@ -87,6 +87,7 @@ def sortBy {α : Type} (lt : α → α → Bool) (l : List α) : List α := l.fo
 
 structure St where
   fs : FS := FS.empty
+  lastTrace : List String := []
   writers : List (String × Flavour × Writer) := []
   readers : List (String × Reader) := []
   linkers : List (String × Linker) := []
@@ -141,10 +142,59 @@ def parseKey (t : String) : Option Bytes := do
   if !Json.utf8Valid b then none
   some b
 
+/-! ### the model's call trace as canonical mutation events (TRACE.md) -/
+
+def pathEv (p : Path) : String :=
+  if p.length ≥ 2 && p.getD (p.length - 2) [] == dTmp then pathStr (FS.parent p) ++ "/*" else pathStr p
+
+def callEvents (env : Env) (fs : FS) (c : Call) : List String :=
+  let r := (exec env fs c).2
+  let ok := match r with | .err _ => false | _ => true
+  match c with
+  | .mkdirP p =>
+    -- one event per level that is actually created (whether or not a later level fails)
+    let created := (FS.prefixes p).filter (fun q => (fs.get q).isNone)
+    let upto := match fs.mkdirP p with
+      | .ok _ => created
+      | .error _ => created.takeWhile (fun q => ((FS.prefixes q).all (fun x => match fs.get x with | some (.file _) => false | _ => true)))
+    upto.map (fun q => "mkdir " ++ pathStr q)
+  | .mkTemp dir => if ok then ["mktemp " ++ pathStr dir ++ "/*"] else []
+  | .fallocate p n => if ok then [s!"fallocate {pathEv p} {n}"] else []
+  | .writeAt p _ d => if ok && d.length > 0 then [s!"write {pathEv p} {d.length}"] else []
+  | .truncate p n => if ok then [s!"truncate {pathEv p} {n}"] else []
+  | .rename s d => if ok then [s!"rename {pathEv s} {pathEv d}"] else []
+  | .openAppend p => if ok then ["open-append-create " ++ pathEv p] else []
+  | .appendWrite p d => if ok && d.length > 0 then [s!"write {pathEv p} {d.length}"] else []
+  | .unlink p => if ok then ["unlink " ++ pathEv p] else []
+  | .hardLink s d => if ok then [s!"link {pathEv s} {pathEv d}"] else []
+  | .symlink t p =>
+    let tt := match t with | .abs q => "abs:" ++ pathStr q | .rel q => "rel:" ++ pathStr q
+    if ok then [s!"symlink {tt} {pathEv p}"] else []
+  | .copyFile s d =>
+    match r with
+    | .nat n => [s!"open-create {pathEv d} O_WRONLY|O_CREAT|O_TRUNC", s!"copy {pathEv s} {pathEv d} {n}"]
+    | _ => []
+  | .reflink _ _ => []
+  | .removeTree p =>
+    if ok then
+      let below := fs.below p
+      let evs := (p :: below).map (fun q => match fs.get q with
+        | some .dir => "rmdir " ++ pathEv q
+        | some _ => "unlink " ++ pathEv q
+        | none => "")
+      evs.filter (· ≠ "")
+    else []
+  | _ => []
+
+def traceEvents (env : Env) : FS → List Call → List String
+  | _, [] => []
+  | fs, c :: cs => callEvents env fs c ++ traceEvents env (exec env fs c).1 cs
+
 /-- Run a program, thread the filesystem, and report whether the clock was read. -/
 def runP {α : Type} (env : Env) (st : St) (p : Prog α) : α × St × Bool :=
   let (a, fs', tr) := Prog.run env p st.fs
-  (a, { st with fs := fs' }, tr.any (fun c => match c with | .now => true | _ => false))
+  (a, { st with fs := fs', lastTrace := st.lastTrace ++ traceEvents env st.fs tr },
+   tr.any (fun c => match c with | .now => true | _ => false))
 
 def nowSuffix (env : Env) (took : Bool) : String :=
   if took then s!" @now={env.clock} @fresh=1" else ""
@@ -511,6 +561,45 @@ def step (st : St) (line : String) : St × String :=
     (st, if es.isEmpty then "ok" else "ok " ++ ";".intercalate es)
   | _ => (st, "err badline")
 
+/-- Programs of the one-line operations, for the crash semantics (`crash <n> <t> <op …>`). -/
+def opProg (toks : List String) : Option (Prog Unit) :=
+  match toks with
+  | ["write", f, c, a, k, d] =>
+    match parseFl f, parseAlgo a, parseKey k, parseB d with
+    | some fl, some al, some key, some data => some (do let _ ← write cfg fl (parsePath c) al key data; pure ())
+    | _, _, _, _ => none
+  | ["write_hash", f, c, a, d] =>
+    match parseFl f, parseAlgo a, parseB d with
+    | some fl, some al, some data => some (do let _ ← writeHash cfg fl (parsePath c) al data; pure ())
+    | _, _, _ => none
+  | ["remove", _, c, k] | ["index_delete", _, c, k] =>
+    (parseKey k).map (fun key => do let _ ← delete cfg (parsePath c) key; pure ())
+  | "index_insert" :: _ :: c :: k :: opts =>
+    match parseKey k, parseWriteOpts opts with
+    | some key, some o => some (do let _ ← insert cfg (parsePath c) key o; pure ())
+    | _, _ => none
+  | ["remove_fully", _, c, k] =>
+    (parseKey k).map (fun key => do let _ ← removeFully cfg (parsePath c) key; pure ())
+  | ["remove_hash", _, c, s] =>
+    (parseSriTok s).map (fun sri => do let _ ← removeHash (parsePath c) sri; pure ())
+  | ["clear", _, c] => some (do let _ ← clear (parsePath c); pure ())
+  | _ => none
+
+/-- `crash <n> <t> <op …>`: leave the model filesystem in the state a kill on entry to the op's
+`n`-th call (torn at `t`) produces; prints the number of calls of the healthy run. -/
+def stepOrCrash (st : St) (line : String) : St × String :=
+  let toks0 := (line.trimAscii.toString.splitOn " ").filter (· ≠ "")
+  match toks0 with
+  | "crash" :: n :: t :: rest =>
+    let nowTok := optVal (rest.map (fun x => if x.startsWith "@" then (x.drop 1).toString else "")) "now"
+    let env : Env := { clock := (nowTok.bind (·.toNat?)).getD 0 }
+    match n.toNat?, t.toNat?, opProg (rest.filter (fun x => !x.startsWith "@")) with
+    | some nn, some tt, some p =>
+      let len := (Prog.run env p st.fs).2.2.length
+      ({ st with fs := Prog.crash env p st.fs nn tt }, s!"ok {len}")
+    | _, _, _ => (st, "err badarg")
+  | _ => step st line
+
 partial def loop (h : IO.FS.Stream) (out : IO.FS.Stream) (st : St) : IO Unit := do
   let line ← h.getLine
   if line.isEmpty then return ()
@@ -518,7 +607,9 @@ partial def loop (h : IO.FS.Stream) (out : IO.FS.Stream) (st : St) : IO Unit := 
   if t.isEmpty || t.startsWith "#" then
     loop h out st
   else
-    let (st', res) := step st t
+    let wantTrace := (t.splitOn " ").any (· == "@trace")
+    let (st', res) := stepOrCrash { st with lastTrace := [] } t
+    let res := if wantTrace then res ++ " @trace=" ++ ";".intercalate st'.lastTrace else res
     out.putStrLn res
     out.flush
     loop h out st'
